@@ -23,6 +23,17 @@ Proof.
 Qed.
 
 (* ------------------------------------------------------------------ ValueRange *)
+Lemma i128_ok_of z : -9223372036854775809 <= z <= 9223372036854775808 -> i128_ok z = true.
+Proof.
+  intros H. unfold i128_ok. rewrite andb_true_iff, !Z.leb_le.
+  change (2 ^ 127) with 170141183460469231731687303715884105728. lia.
+Qed.
+Lemma as_i64_id z : -9223372036854775808 <= z <= 9223372036854775807 -> as_i64 z = z.
+Proof.
+  intros H. unfold as_i64. change (2 ^ 63) with 9223372036854775808. change (2 ^ 64) with 18446744073709551616.
+  rewrite Z.mod_small by lia. lia.
+Qed.
+
 Lemma map_seq_shift_asc from n :
   map (fun k => from + Z.of_nat k) (seq 0 (S n)) = from :: map (fun k => (from + 1) + Z.of_nat k) (seq 0 n).
 Proof.
@@ -34,8 +45,9 @@ Proof.
   cbn [seq map]. f_equal; [lia|]. rewrite <- seq_shift, map_map. apply map_ext. intros; lia.
 Qed.
 
+(* `to` may be one past i64::MAX (inclusive end): it lives in an i128 *)
 Lemma collect_asc n : forall from to fuel,
-  -9223372036854775808 <= from -> to <= 9223372036854775807 ->
+  -9223372036854775808 <= from -> to <= 9223372036854775808 ->
   Z.of_nat n = to - from -> (n < fuel)%nat ->
   vr_collect fuel (mkVR from to 1) = RItems (map (fun k => from + Z.of_nat k) (seq 0 n)).
 Proof.
@@ -47,12 +59,12 @@ Proof.
     cbn [vr_collect]. unfold vr_next, vr_continue. cbn [vr_from vr_to vr_step].
     assert (Hlt : (from ?= to) = Lt) by (apply Z.compare_lt_iff; lia). rewrite Hlt.
     change (0 ?= 1) with Lt. cbn iota.
-    assert (Hok : i64_ok (from + 1) = true) by (apply i64_ok_iff; lia). rewrite Hok.
+    rewrite (i128_ok_of (from + 1)) by lia. rewrite (as_i64_id from) by lia.
     rewrite (IH (from + 1) to f) by lia. rewrite map_seq_shift_asc. reflexivity.
 Qed.
 
 Lemma collect_desc n : forall from to fuel,
-  from <= 9223372036854775807 -> -9223372036854775808 <= to ->
+  from <= 9223372036854775807 -> -9223372036854775809 <= to ->
   Z.of_nat n = from - to -> (n < fuel)%nat ->
   vr_collect fuel (mkVR from to (-1)) = RItems (map (fun k => from - Z.of_nat k) (seq 0 n)).
 Proof.
@@ -64,109 +76,42 @@ Proof.
     cbn [vr_collect]. unfold vr_next, vr_continue. cbn [vr_from vr_to vr_step].
     assert (Hgt : (from ?= to) = Gt) by (apply Z.compare_gt_iff; lia). rewrite Hgt.
     change (0 ?= -1) with Gt. cbn iota.
-    assert (Hok : i64_ok (from + -1) = true) by (apply i64_ok_iff; lia). rewrite Hok.
+    rewrite (i128_ok_of (from + -1)) by lia. rewrite (as_i64_id from) by lia.
     rewrite (IH (from + -1) to f) by lia. rewrite map_seq_shift_desc. reflexivity.
 Qed.
 
-Definition range_step (from to : Z) : Z := if to >=? from then 1 else -1.
-Definition range_end (from to : Z) (inclusive : bool) : Z :=
-  if inclusive then to + range_step from to else to.
-
-(* the interval theorem: all i64 bounds, both directions, inclusive and exclusive *)
+(* the interval theorem at full strength: ALL i64 bounds, both directions, inclusive and exclusive *)
 Lemma range_correct from to incl fuel :
-  i64_ok from = true -> i64_ok to = true -> i64_ok (range_end from to incl) = true ->
+  i64_ok from = true -> i64_ok to = true ->
   (Z.to_nat (Z.abs (to - from)) + 1 < fuel)%nat ->
   range_items fuel from to incl = RItems (spec_range from to incl).
 Proof.
-  intros Hf Ht He Hfuel. apply i64_ok_iff in Hf, Ht.
-  unfold range_items, vr_new, spec_range, range_end, range_step in *.
+  intros Hf Ht Hfuel. apply i64_ok_iff in Hf, Ht.
+  unfold range_items, vr_new, spec_range in *.
   destruct (to >=? from) eqn:Hdir.
   - apply Z.geb_le in Hdir. assert (Hle : (from <=? to) = true) by (apply Z.leb_le; lia). rewrite Hle.
-    destruct incl; cbn [incl_extra].
-    + rewrite He. apply i64_ok_iff in He.
-      apply collect_asc; try lia.
-    + apply collect_asc; try lia.
+    destruct incl; cbn [incl_extra]; apply collect_asc; lia.
   - assert (Hlt : to < from) by (rewrite Z.geb_leb in Hdir; apply Z.leb_gt in Hdir; lia).
     assert (Hle : (from <=? to) = false) by (apply Z.leb_gt; lia). rewrite Hle.
-    destruct incl; cbn [incl_extra].
-    + rewrite He. apply i64_ok_iff in He.
-      apply collect_desc; try lia.
-    + apply collect_desc; try lia.
+    destruct incl; cbn [incl_extra]; apply collect_desc; lia.
 Qed.
 
-(* `to + step` leaves i64 exactly at the two edges *)
-Lemma overflow_iff from to incl :
-  i64_ok from = true -> i64_ok to = true ->
-  (vr_new from to incl = None <->
-   incl = true /\ ((from <= to /\ to = 9223372036854775807) \/ (to < from /\ to = -9223372036854775808))).
+(* no i64 range ever panics, whatever the fuel *)
+Lemma never_panics from to incl fuel :
+  i64_ok from = true -> i64_ok to = true -> range_items fuel from to incl <> RPanic.
 Proof.
-  intros Hf Ht. apply i64_ok_iff in Hf, Ht. unfold vr_new.
-  destruct (to >=? from) eqn:Hdir.
-  - apply Z.geb_le in Hdir. destruct incl.
-    + destruct (i64_ok (to + 1)) eqn:E.
-      * apply i64_ok_iff in E. split; [discriminate | intros [_ [[_ H]|[H _]]]; lia].
-      * apply i64_ok_false in E. split; [intros _; split; [reflexivity | left; lia] | reflexivity].
-    + split; [discriminate | intros [H _]; discriminate].
-  - assert (Hlt : to < from) by (rewrite Z.geb_leb in Hdir; apply Z.leb_gt in Hdir; lia).
-    destruct incl.
-    + destruct (i64_ok (to + -1)) eqn:E.
-      * apply i64_ok_iff in E. split; [discriminate | intros [_ [[H _]|[_ H]]]; lia].
-      * apply i64_ok_false in E. split; [intros _; split; [reflexivity | right; lia] | reflexivity].
-    + split; [discriminate | intros [H _]; discriminate].
-Qed.
-
-(* `self.from += self.step` never overflows: a panic can only come from ValueRange::new *)
-Lemma collect_asc_nopanic fuel : forall from to,
-  -9223372036854775808 <= from -> from <= to -> to <= 9223372036854775807 ->
-  vr_collect fuel (mkVR from to 1) <> RPanic.
-Proof.
-  induction fuel as [|f IH]; intros from to H1 H2 H3; cbn [vr_collect]; [discriminate|].
-  unfold vr_next, vr_continue. cbn [vr_from vr_to vr_step]. change (0 ?= 1) with Lt.
-  destruct (from ?= to) eqn:C; try discriminate.
-  pose proof (proj1 (Z.compare_lt_iff _ _) C) as C'.
-  assert (Hok : i64_ok (from + 1) = true) by (apply i64_ok_iff; lia). rewrite Hok.
-  specialize (IH (from + 1) to ltac:(lia) ltac:(lia) H3).
-  destruct (vr_collect f (mkVR (from + 1) to 1)); congruence.
-Qed.
-Lemma collect_desc_nopanic fuel : forall from to,
-  from <= 9223372036854775807 -> to <= from -> -9223372036854775808 <= to ->
-  vr_collect fuel (mkVR from to (-1)) <> RPanic.
-Proof.
-  induction fuel as [|f IH]; intros from to H1 H2 H3; cbn [vr_collect]; [discriminate|].
-  unfold vr_next, vr_continue. cbn [vr_from vr_to vr_step]. change (0 ?= -1) with Gt.
-  destruct (from ?= to) eqn:C; try discriminate.
-  pose proof (proj1 (Z.compare_gt_iff _ _) C) as C'.
-  assert (Hok : i64_ok (from + -1) = true) by (apply i64_ok_iff; lia). rewrite Hok.
-  specialize (IH (from + -1) to ltac:(lia) ltac:(lia) H3).
-  destruct (vr_collect f (mkVR (from + -1) to (-1))); congruence.
-Qed.
-
-Lemma step_never_overflows from to incl fuel :
-  i64_ok from = true -> i64_ok to = true ->
-  range_items fuel from to incl = RPanic -> vr_new from to incl = None.
-Proof.
-  intros Hf Ht. apply i64_ok_iff in Hf, Ht. unfold range_items.
-  destruct (vr_new from to incl) as [r|] eqn:E; [|reflexivity].
-  intros HP. exfalso. revert E HP. unfold vr_new.
-  destruct (to >=? from) eqn:Hdir.
-  - apply Z.geb_le in Hdir. destruct incl.
-    + destruct (i64_ok (to + 1)) eqn:O; [|discriminate]. apply i64_ok_iff in O.
-      intros E; inversion E; subst r. apply collect_asc_nopanic; lia.
-    + intros E; inversion E; subst r. apply collect_asc_nopanic; lia.
-  - assert (Hlt : to < from) by (rewrite Z.geb_leb in Hdir; apply Z.leb_gt in Hdir; lia).
-    destruct incl.
-    + destruct (i64_ok (to + -1)) eqn:O; [|discriminate]. apply i64_ok_iff in O.
-      intros E; inversion E; subst r. apply collect_desc_nopanic; lia.
-    + intros E; inversion E; subst r. apply collect_desc_nopanic; lia.
-Qed.
-
-(* F2: the statement "every i64 range yields its interval" is false of the faithful model *)
-Lemma refuted_overflow : exists from to incl,
-  i64_ok from = true /\ i64_ok to = true /\
-  forall fuel, range_items fuel from to incl = RPanic.
-Proof.
-  exists 9223372036854775807, 9223372036854775807, true.
-  split; [reflexivity|]. split; [reflexivity|]. intros fuel. reflexivity.
+  intros Hf Ht.
+  destruct (le_lt_dec fuel (Z.to_nat (Z.abs (to - from)) + 1)) as [Hs|Hb].
+  - (* short fuel: compare with a long run *)
+    intros HP.
+    assert (M : forall f r, vr_collect f r = RPanic -> forall g, (f <= g)%nat -> vr_collect g r = RPanic).
+    { induction f as [|f IH]; intros r H g Hg; [discriminate|]. destruct g as [|g]; [lia|].
+      cbn [vr_collect] in *. destruct (vr_next r) as [v r'| |]; try discriminate; [|reflexivity].
+      destruct (vr_collect f r') eqn:E; try discriminate. rewrite (IH r' E g) by lia. reflexivity. }
+    pose proof (M _ _ HP (Z.to_nat (Z.abs (to - from)) + 2)%nat ltac:(lia)) as HP'.
+    unfold range_items in HP'. fold (range_items (Z.to_nat (Z.abs (to - from)) + 2) from to incl) in HP'.
+    rewrite (range_correct from to incl _ Hf Ht) in HP' by lia. discriminate.
+  - rewrite (range_correct from to incl fuel Hf Ht) by lia. discriminate.
 Qed.
 
 (* ------------------------------------------------------------------ SrcRange / @for *)
@@ -213,14 +158,19 @@ Proof.
   assert (Hfo : i64_ok f = true) by (eapply into_integer_ok; eauto).
   assert (Hto : i64_ok t = true).
   { destruct Ht as [[_ H]|[_ [s [_ H]]]]; eapply into_integer_ok; eauto. }
-  destruct (vr_new f t incl) as [r|] eqn:En.
-  - assert (He : i64_ok (range_end f t incl) = true).
-    { revert En. unfold vr_new, range_end, range_step.
-      destruct incl; [|intros _; exact Hto].
-      destruct (i64_ok (t + (if t >=? f then 1 else -1))); [reflexivity | discriminate]. }
-    rewrite (range_correct f t incl (range_fuel f t) Hfo Hto He) by (unfold range_fuel; lia).
-    intros H; inversion H; subst. split; [reflexivity|]. exists f, t. auto.
-  - unfold range_items. rewrite En. discriminate.
+  rewrite (range_correct f t incl (range_fuel f t) Hfo Hto) by (unfold range_fuel; lia).
+  intros H; inversion H; subst. split; [reflexivity|]. exists f, t. auto.
+Qed.
+
+(* the loop never panics and never runs out of the model's fuel: error or items *)
+Lemma for_total from to incl : for_eval from to incl <> FPanic.
+Proof.
+  unfold for_eval. destruct (src_evaluate from to) as [f t u'| | | |] eqn:Es; try discriminate.
+  destruct (src_evaluate_shape _ _ _ _ _ Es) as (Hu & Hf & Ht).
+  assert (Hfo : i64_ok f = true) by (eapply into_integer_ok; eauto).
+  assert (Hto : i64_ok t = true).
+  { destruct Ht as [[_ H]|[_ [s [_ H]]]]; eapply into_integer_ok; eauto. }
+  rewrite (range_correct f t incl (range_fuel f t) Hfo Hto) by (unfold range_fuel; lia). discriminate.
 Qed.
 
 (* ------------------------------------------------------------------ @if *)
